@@ -86,7 +86,7 @@ def make_builder(cfg, events, attempts=()):
 
         def prepare_markup(self, markup, user_specified_encoding=None, document_declared_encoding=None, exclude_encodings=None):
             if markup == "REPLAY":
-                for i in range(len(attempts)):
+                for i in range(len(self.verif_attempts)):
                     yield f"REPLAY:{i}", None, None, False
             yield markup, None, None, False
 
@@ -95,7 +95,7 @@ def make_builder(cfg, events, attempts=()):
                 return
             soup = self.soup
             rejected = markup != "REPLAY"
-            for ev in (attempts[int(markup[7:])] if rejected else events):
+            for ev in (self.verif_attempts[int(markup[7:])] if rejected else self.verif_events):
                 f = ev.split(":")
                 # prefixes (and names) are handed over as strings computed per event, as a SAX-style builder does (`qname.split(":")`):
                 # equal to the open element's, never the same object
@@ -110,7 +110,90 @@ def make_builder(cfg, events, attempts=()):
             if rejected:
                 raise ParserRejectedMarkup("verif: strategy rejected after sending events")
 
-    return ReplayBuilder()
+    b = ReplayBuilder()
+    b.verif_events, b.verif_attempts = events, attempts       # per document: one builder object may build several (see reuse_stream)
+    return b
+
+
+def reuse_stream(ctx):
+    """One builder OBJECT building document after document while its configuration is changed in between (reassigned, or edited in
+    place): `empty_element_tags` and `preserve_whitespace_tags` are read when an element is created / text is gathered, so every
+    document follows the configuration in force while IT is built - nothing remembered from an earlier document, or from an earlier
+    question about the same tag name."""
+    from bs4 import BeautifulSoup
+    names = [s for s in ALPHABET]
+    for i in range(ctx.n(400, 8000)):
+        r = ctx.rng("reuse", i)
+        cfgname = r.choice(list(CONFIGS))
+        void = r.choice(VOIDS)
+        cfg = dict(CONFIGS[cfgname], void=void)
+        b = make_builder(cfg, [], ())
+        hist = []
+        for d in range(r.randint(2, 4)):
+            events = [e for _ in range(r.randint(1, 14)) for e in ALPHABET[r.choice(names)]]
+            if d > 0:
+                how = r.choice(["void-reassign", "void-in-place", "pre-reassign", "pre-in-place", "none"])
+                used = sorted({e.split(":")[1] for h in hist for e in h["events"] if e.startswith("s:")}) or ["a"]
+                nm = r.choice(used)
+                if how == "void-reassign":
+                    void = r.choice(VOIDS + [[nm], [n for n in used if n != nm]])
+                    b.empty_element_tags = None if void == "*" else set(void)
+                elif how == "void-in-place" and void != "*":
+                    void = sorted(set(void) ^ {nm})
+                    (b.empty_element_tags.add if nm in void else b.empty_element_tags.discard)(nm)
+                elif how == "pre-reassign":
+                    cfg = dict(cfg, pre=sorted(set(cfg["pre"]) ^ {nm}))
+                    b.preserve_whitespace_tags = set(cfg["pre"])
+                elif how == "pre-in-place":
+                    cfg = dict(cfg, pre=sorted(set(cfg["pre"]) ^ {nm}))
+                    (b.preserve_whitespace_tags.add if nm in cfg["pre"] else b.preserve_whitespace_tags.discard)(nm)
+                else:
+                    how = "none"
+                ctx.count("builder-reuse:" + how)
+            cfg = dict(cfg, void=void)
+            b.verif_events = events
+            hist.append({"events": events, "void": void, "pre": list(cfg["pre"]), "how": how if d > 0 else "start"})
+            case = {"op": "reuse", "cfg": cfgname, "history": [dict(h) for h in hist]}
+            try:
+                with warnings.catch_warnings():
+                    warnings.simplefilter("ignore")
+                    soup = BeautifulSoup("REPLAY", builder=b)
+            except Exception as e:
+                ctx.violation(f"document {d} on a reused builder object raised {type(e).__name__}: {e}", case=case, stream="builder-reuse")
+                break
+            got, want = shape(soup), oracle(cfg, events)
+            msg = void_check(soup, void)
+            ctx.case(("reuse", cfgname, i, d) if d > 0 else None)
+            if got != want or msg:
+                ctx.violation(f"document {d} built by a reused builder object does not follow the configuration in force while it is built"
+                              + (": " + msg if msg else ": tree differs from the documented construction rules"),
+                              case=case, expected=want, observed=got if got != want else msg, stream="builder-reuse")
+                break
+
+
+def replay_reuse(c):
+    from bs4 import BeautifulSoup
+    cfg0 = CONFIGS[c["cfg"]]
+    h0 = c["history"][0]
+    b = make_builder(dict(cfg0, void=h0["void"], pre=h0["pre"]), [], ())
+    bad = 0
+    for d, h in enumerate(c["history"]):
+        cfg = dict(cfg0, void=h["void"], pre=h["pre"])
+        if h.get("how") == "void-in-place" and b.empty_element_tags is not None:
+            b.empty_element_tags.clear(); b.empty_element_tags.update(h["void"])           # the same set object, edited
+        elif h.get("how") == "pre-in-place":
+            b.preserve_whitespace_tags.clear(); b.preserve_whitespace_tags.update(h["pre"])
+        else:
+            b.empty_element_tags = None if h["void"] == "*" else set(h["void"])
+            b.preserve_whitespace_tags = set(h["pre"])
+        b.verif_events = h["events"]
+        with warnings.catch_warnings():
+            warnings.simplefilter("ignore")
+            soup = BeautifulSoup("REPLAY", builder=b)
+        got, want, msg = shape(soup), oracle(cfg, h["events"]), void_check(soup, h["void"])
+        print(f"document {d}: empty-element rule {h['void']!r}, whitespace-preserving {h['pre']!r}\n  implementation: {got}\n  documented:     {want}\n  empty-element rule: {msg or 'ok'}")
+        bad += got != want or bool(msg)
+    return 1 if bad else 0
 
 
 def shape(el):
@@ -373,6 +456,7 @@ def run(ctx: Ctx):
         if attempts:
             ctx.count("retry:documents")
             ctx.count("retry:rejected-attempts-with-events", sum(1 for a in attempts if a))
+    reuse_stream(ctx)
     # model: code-mirror and documented fold
     drv = Driver()
     compare_links(ctx, drv, link_lines, link_impls, cases)
@@ -408,6 +492,8 @@ def compare_links(ctx, drv, link_lines, link_impls, cases):
 def replay(path):
     v = json.load(open(path))
     c = v["case"]
+    if c.get("op") == "reuse":
+        return replay_reuse(c)
     if "events" not in c:
         print(json.dumps(v, indent=1)[:3000]); return 1
     cfg = CONFIGS[c["cfg"]]
